@@ -52,6 +52,7 @@ def judge_instance(ctx, inst, case):
     granted = 0
     received = 0
     reported = set()
+    text = " [str payload: length taken in characters, sent as UTF-8 bytes]" if case.get("payload") == "nonascii-str" else ""
     for e in inst.ev:
         t, d = e["t"], e["d"]
         if d == "in" and t in (cm.DATA, cm.EXT):
@@ -69,7 +70,7 @@ def judge_instance(ctx, inst, case):
             if sent > credit and "w" not in reported:
                 reported.add("w")
                 ctx.violation(
-                    "sender exceeded the peer's window (%s)" % cm.NAMES[t],
+                    "sender exceeded the peer's window (%s)%s" % (cm.NAMES[t], text),
                     "cumulative data bytes on a channel exceeded the initial window plus the adjustments read so far",
                     dict(case=case, chan=inst.desc(), sent=sent, credit=credit, excerpt=inst.excerpt()))
             if inst.peer_maxpkt >= 4096:
@@ -79,7 +80,7 @@ def judge_instance(ctx, inst, case):
                 if n > inst.peer_maxpkt and "p" not in reported:
                     reported.add("p")
                     ctx.violation(
-                        "data message longer than the peer's max packet (%s)" % cm.NAMES[t],
+                        "data message longer than the peer's max packet (%s)%s" % (cm.NAMES[t], text),
                         "a single data message carried more bytes than the peer's maximum packet size",
                         dict(case=case, chan=inst.desc(), length=n, excerpt=inst.excerpt()))
             else:
@@ -415,6 +416,68 @@ def run_attack_case(ctx, case, rng):
             ctx.count("attacker_cases_window_zero")
     finally:
         a.close()
+
+
+# ---------------------------------------------------------------------------
+# text payloads: the limits are in bytes, whatever the type handed to send()
+TEXT_ALPHABET = "a\u00e9\u4e2d\U0001f600\u07ff\u0800z"
+
+
+def run_text(ctx, case, rng):
+    import random as _r
+    w, pk = case["window"], case["packet"]
+    p = pair.Pair(rng=rng, server_kw=dict(default_window_size=w, default_max_packet_size=pk))
+    cm.watch(p.tc, p.rec, "c")
+    cm.watch(p.ts, p.rec, "s")
+    try:
+        if not p.start() or not p.auth():
+            ctx.inconclusive("handshake failed (text stratum)")
+            return
+        cm.diverge_ids(p, rng)
+        c, s = p.session(window_size=w, max_packet_size=pk)
+        x, y = (c, s) if case["role"] == "c" else (s, c)
+        rr = _r.Random(case["seed"])
+        if case["payload"] == "nonascii-str":
+            payload = "".join(rr.choice(TEXT_ALPHABET) for _ in range(case["chars"]))
+        else:
+            payload = "".join(rr.choice("abc xyz") for _ in range(case["chars"]))
+        expect = payload.encode("utf-8")
+        rd = cm.PollReader(y, rng.getrandbits(32), case["read"], keep=True).start()
+        x.settimeout(60)
+        errs = []
+
+        def call():
+            try:
+                if case["api"] == "sendall":
+                    (x.sendall_stderr if case["stderr"] else x.sendall)(payload)
+                else:
+                    fn = x.send_stderr if case["stderr"] else x.send
+                    rest = payload
+                    while rest:
+                        k = fn(rest)
+                        if k <= 0:
+                            raise EOFError("send returned %r" % k)
+                        rest = rest[k:]
+            except Exception as e:
+                errs.append(repr(e))
+
+        t = threading.Thread(target=call, daemon=True)
+        t.start()
+        t.join(120)
+        key = "err" if case["stderr"] else "out"
+        pair.wait_for(lambda: rd.got[key] >= len(expect), 20, 0.002)
+        p.wait_quiet(0.05, 5)
+        rd.settle()
+        rd.stop()
+        if t.is_alive() or errs:
+            ctx.inconclusive("text transfer did not finish: %s" % errs)
+        judge(ctx, p.rec, ("c", "s"), case)
+        ctx.count("text_cases")
+        ctx.count("text_payload_bytes", len(expect))
+        if bytes(rd.data[key]) == expect:
+            ctx.count("text_payloads_delivered")
+    finally:
+        p.close()
 
 
 # ---------------------------------------------------------------------------
@@ -766,6 +829,15 @@ def run(ctx):
     cm.install()
     rng = ctx.rng
     ctx.guard(run_preempt, ctx, rng)
+    for i in range(ctx.pick(3, 16)):
+        j = i * ctx.nshards + ctx.shard
+        case = dict(kind="text-payload", payload=("nonascii-str", "nonascii-str", "ascii-str")[j % 3], role="cs"[j % 2],
+                    api=("sendall", "send")[j // 2 % 2], stderr=j // 4 % 2 == 1, window=(32768, 65535, 1 << 20)[j // 3 % 3],
+                    packet=(4096, 32768)[j // 2 % 2], chars=(500, 20000, 60000)[j % 3 if j % 3 else (j // 3) % 3], read=(700, 40000)[j % 2],
+                    seed=j)
+        before = ctx.counters.get("text_cases", 0)
+        ctx.guard(run_text, ctx, case, rng)
+        ctx.case(tuple(sorted(case.items())), sample=case if i == 0 else None, nontrivial=ctx.counters.get("text_cases", 0) > before)
     for i in range(ctx.pick(2, 12)):
         j = i * ctx.nshards + ctx.shard
         adj = ctx.pick(800, 3000)
@@ -809,6 +881,9 @@ def run(ctx):
     ctx.require("window_exactly_exhausted", 5)
     ctx.require("attacker_cases", 8)
     ctx.require("transfers_complete", 10)
+    ctx.require("text_cases", 20)
+    ctx.require("text_payload_bytes", 500000)
+    ctx.require("text_payloads_delivered", 20)
     ctx.require("adjust_race_cases", 12)
     ctx.require("adjust_race_adjusts_read", 8000)
     ctx.require("adjust_race_sends", 6000)
